@@ -231,6 +231,16 @@ Byte:
 			// Ignoring error because this scanner cannot produce errors.
 			advance, _, _ := textseg.ScanGraphemeClusters(buf[i:], true)
 
+			// A grapheme cluster can extend over a following quote, backslash
+			// or control character (after a "prepend" character such as
+			// U+0600), which must still be treated as syntax.
+			for j := 1; j < advance; j++ {
+				if c := buf[i+j]; c == '"' || c == '\\' || c < 32 {
+					advance = j
+					break
+				}
+			}
+
 			p.Pos.Byte += advance
 			p.Pos.Column++
 			i += advance
